@@ -285,8 +285,8 @@ PROPS['C02'] = dict(
     level_note=('Enumerates single-site faults completely for the short bases listed in the evidence and samples the rest; a clean sanitizer run is not memory safety (intra-object and far out-of-bounds accesses escape). '
                 'Decoder-side code has no UBSan suppressions.'),
     rule=_HOSTILE_RULE + 'Non-trivial = the decoder got past the 11-byte header; distinct = hash of (corrupted bytes, entry point, skip set).',
-    runs=[dict(variant='asan', harness='c02_decode_hostile', cases=dict(quick=270491 + 90000, thorough=8965921 + 2000000), cpu_budget=20),
-          dict(variant='plain', harness='c02_decode_hostile', tag='guard-pages', cases=dict(quick=270491 + 90000, thorough=8965921 + 2000000), cpu_budget=10)],
+    runs=[dict(variant='asan', harness='c02_decode_hostile', cases=dict(quick=1, thorough=1), plan_extra=dict(quick=90000, thorough=2000000), cpu_budget=20),
+          dict(variant='plain', harness='c02_decode_hostile', tag='guard-pages', cases=dict(quick=1, thorough=1), plan_extra=dict(quick=90000, thorough=2000000), cpu_budget=10)],
     min_nontrivial=100000,
     require_counters={'mutation/truncate': 2 * 6000, 'mutation/byte': 2 * 50000, 'mutation/u32': 2 * 38000, 'mutation/varint': 2 * 25000, 'mutation/tamper-site7': 2 * 2000, 'mutation/tamper-site8': 2 * 800, 'mutation/tamper-site2': 2 * 2000,
                       'mutation/tamper-site5': 2 * 4000, 'mutation/multi-site': 2 * 10000, 'mutation/splice': 2 * 5000, 'mutation/header': 2 * 5000, 'kind/keyframes': 2 * 8000, 'kind/metadata': 2 * 2500, 'kind/symbols': 2 * 4000,
@@ -304,7 +304,7 @@ PROPS['C03'] = dict(
     level_note='Same input space as C02; evidence reports how many corrupted streams were accepted (these are the interesting cases).',
     rule=_HOSTILE_RULE + 'Non-trivial = decode returned OK and the validator ran; distinct = hash of (bytes, entry point, skip set).',
     # UBSan is not fatal here: undefined behaviour while decoding is C02's verdict; C03 judges the returned geometry (ASan stays fatal for the read-everything pass).
-    runs=[dict(variant='asan', harness='c02_decode_hostile', prop='C03', cases=dict(quick=270491 + 90000, thorough=8965921 + 2000000), cpu_budget=20, ubsan_fatal=False)],
+    runs=[dict(variant='asan', harness='c02_decode_hostile', prop='C03', cases=dict(quick=1, thorough=1), plan_extra=dict(quick=90000, thorough=2000000), cpu_budget=20, ubsan_fatal=False)],
     min_nontrivial=20000,
     require_counters={'accepted_corrupted_streams': 50000, 'decode_ok/geometry/tamper': 5000, 'decode_ok/geometry/bytes': 40000, 'decode_ok/keyframes/bytes': 4000},
     assumptions=[],
@@ -319,7 +319,7 @@ PROPS['C18'] = dict(
                 'largest request, so distinct missing guards are distinct findings.'),
     level_note='C0 = 64 MiB covers the fixed-size rANS tables (independent of input; largest peak observed at calibration: 18 MB for a 190-byte corrupted stream), K_in = 2048, K_el = 256 B; the evidence reports the largest observed request/bound and peak/bound ratios (calibration: well below 1 on valid streams).',
     rule=_HOSTILE_RULE + 'Non-trivial = decoder got past the header; distinct = hash of (bytes, entry point, skip set).',
-    runs=[dict(variant='plain', harness='c02_decode_hostile', prop='C18', cases=dict(quick=270491 + 90000, thorough=8965921 + 2000000), cpu_budget=10)],
+    runs=[dict(variant='plain', harness='c02_decode_hostile', prop='C18', cases=dict(quick=1, thorough=1), plan_extra=dict(quick=90000, thorough=2000000), cpu_budget=10)],
     min_nontrivial=100000,
     require_counters={'mutation/u32': 38000, 'mutation/varint': 25000, 'mutation/tamper-site1': 1000, 'mutation/multi-site': 10000},
     assumptions=['harness allocation cap: 256 MiB per request, 1 GiB live (larger requests are recorded with their size, then refused)'],
